@@ -11,7 +11,7 @@ PROPERTY = "C06"
 
 # ---------------------------------------------------------------------------------------------
 # int-domain matcher expressions: (matcher object, denotation x -> bool, description)
-NLEAF = 8
+NLEAF = 10
 UN = 3      # Not, Annotate, AfterPreprocessing(+1)
 BIN = 3     # MatchesAll, MatchesAll(first_only), MatchesAny
 
@@ -20,7 +20,7 @@ def _succ(v):
     return v + 1
 
 
-FULL = (tuple(range(8)), (0, 1, 2), (0, 1, 2))
+FULL = (tuple(range(10)), (0, 1, 2), (0, 1, 2))
 REDUCED = ((0, 2, 5, 1), (0, 2), (0, 2))      # Equals, LessThan, Never, NotEquals | Not, AfterPre | All, Any
 SETWISE = ((0, 1, 2, 4), (), ())               # Equals, NotEquals, LessThan, Always
 
@@ -86,7 +86,11 @@ class Builder:
             return M.Never(), (lambda x: False), "Never"
         if op == 6:
             return M.IsInstance(V), (lambda x: isinstance(x, V)), "IsInstance(V)"
-        return M.Is(None), (lambda x: x is None), "Is(None)"
+        if op == 7:
+            return M.Is(None), (lambda x: x is None), "Is(None)"
+        if op == 8:
+            return M.MatchesAny(), (lambda x: False), "MatchesAny()"       # empty disjunction
+        return M.MatchesAll(), (lambda x: True), "MatchesAll()"            # empty conjunction
 
 
 def snapshot(obj, depth=0):
@@ -132,8 +136,8 @@ def h_int(o0: int, o1: int, o2: int, o3: int, o4: int, o5: int, o6: int,
           p0: int, p1: int, p2: int, x: int, depth: int, alpha: int) -> bool:
     """
     pre: 0 <= depth <= 3 and 0 <= alpha < 2
-    pre: 0 <= o0 < 14 and 0 <= o1 < 14 and 0 <= o2 < 14 and 0 <= o3 < 14
-    pre: 0 <= o4 < 14 and 0 <= o5 < 14 and 0 <= o6 < 14
+    pre: 0 <= o0 < 16 and 0 <= o1 < 16 and 0 <= o2 < 16 and 0 <= o3 < 16
+    pre: 0 <= o4 < 16 and 0 <= o5 < 16 and 0 <= o6 < 16
     post: _
     """
     dp = ch.sel("depth", depth, 4)
@@ -150,7 +154,16 @@ def h_int(o0: int, o1: int, o2: int, o3: int, o4: int, o5: int, o6: int,
 
 # --- harness: sequence domain -----------------------------------------------------------------
 SEQ_OPS = ["AllMatch", "AnyMatch", "Listwise2", "Listwise2First", "Setwise2", "Setwise3",
-           "HasLength", "SameMembers2", "Contains", "ContainsAll2", "Setwise2Same"]
+           "HasLength", "SameMembers2", "Contains", "ContainsAll2", "Setwise2Same",
+           "AllMatch(AnyMatch)", "Not(AllMatch(AnyMatch))", "AnyMatch(AllMatch)", "Listwise[AnyMatch, AllMatch]"]
+NESTED_FROM = 11
+# nested matchees (lists of lists) for the nested quantifier combinators, built from x0..x2
+SHAPES = ["[]", "[[]]", "[[x0]]", "[[x0], []]", "[[], [x1]]", "[[x0, x1]]", "[[x0], [x1]]", "[[x0], [x1, x2]]"]
+
+
+def nested_value(shape, xs):
+    x0, x1, x2 = xs
+    return [[], [[]], [[x0]], [[x0], []], [[], [x1]], [[x0, x1]], [[x0], [x1]], [[x0], [x1, x2]]][shape]
 
 
 def perm_exists(dens, values):
@@ -225,19 +238,42 @@ def build_seq(op, b, params):
         m1, d1, s1 = b.build(0)
         return (M.MatchesSetwise(m1, m1), (lambda xs: len(xs) == 2 and d1(xs[0]) and d1(xs[1])),
                 "Setwise(m, m) with m=%s" % s1)
+    if op == 11:
+        m1, d1, s1 = b.build(0)
+        return (M.AllMatch(M.AnyMatch(m1)), (lambda xss: all(any(d1(x) for x in xs) for xs in xss)),
+                "AllMatch(AnyMatch(%s))" % s1)
+    if op == 12:
+        m1, d1, s1 = b.build(0)
+        return (M.Not(M.AllMatch(M.AnyMatch(m1))), (lambda xss: not all(any(d1(x) for x in xs) for xs in xss)),
+                "Not(AllMatch(AnyMatch(%s)))" % s1)
+    if op == 13:
+        m1, d1, s1 = b.build(0)
+        return (M.AnyMatch(M.AllMatch(m1)), (lambda xss: any(all(d1(x) for x in xs) for xs in xss)),
+                "AnyMatch(AllMatch(%s))" % s1)
+    if op == 14:
+        m1, d1, s1 = b.build(0)
+        return (M.MatchesListwise([M.AnyMatch(m1), M.AllMatch(m1)]),
+                (lambda xss: len(xss) == 2 and any(d1(x) for x in xss[0]) and all(d1(x) for x in xss[1])),
+                "Listwise[AnyMatch(%s), AllMatch(%s)]" % (s1, s1))
     raise ch.Prune()
 
 
 def h_seq(op: int, o0: int, o1: int, o2: int, p0: int, p1: int, p2: int, k: int,
           n: int, x0: int, x1: int, x2: int) -> bool:
     """
-    pre: 0 <= op < 11 and 0 <= n <= 3 and 0 <= k < 4
-    pre: 0 <= o0 < 14 and 0 <= o1 < 14 and 0 <= o2 < 14
+    pre: 0 <= op < 15 and 0 <= n <= 7 and 0 <= k < 4
+    pre: 0 <= o0 < 16 and 0 <= o1 < 16 and 0 <= o2 < 16
     post: _
     """
-    opc = ch.sel("op", op, len(SEQ_OPS))
-    nn = ch.sel("n", n, 4)
-    xs = [V(x0), V(x1), V(x2)][:nn]
+    try:
+        opc = ch.sel("op", op, len(SEQ_OPS))
+        nn = ch.sel("n", n, 8 if opc >= NESTED_FROM else 4)
+    except ch.Prune:
+        return True
+    if opc >= NESTED_FROM:
+        xs = nested_value(nn, [V(x0), V(x1), V(x2)])      # n selects the shape of a list of lists
+    else:
+        xs = [V(x0), V(x1), V(x2)][:nn]
     b = Builder([o0, o1, o2], [V(p0), V(p1), V(p2)])
     try:
         m, den, desc = build_seq(opc, b, [V(p0), V(p1), V(p2), k])
@@ -246,6 +282,8 @@ def h_seq(op: int, o0: int, o1: int, o2: int, p0: int, p1: int, p2: int, k: int,
     orig = list(xs)
     want, problems = check_match(m, den, xs, vcopy=lambda: len(xs) == len(orig) and all(a is c for a, c in zip(xs, orig)))
     v = {"expr": desc, "n": nn, "verdict": want}
+    if opc >= NESTED_FROM:
+        v["shape"] = SHAPES[nn]
     if ch.excluded(v):
         return True
     return ch.finish(not problems, v, nontrivial=nn >= 1)
@@ -497,23 +535,25 @@ def h_fin(group: int, i: int, j: int) -> bool:
 def _int_shards(tier):
     out = [({"depth": 0, "alpha": 0}, 300), ({"depth": 1, "alpha": 0}, 300)]
     # depth 2 over the reduced alphabet (4 leaves, Not/AfterPre, All/Any): 3964 trees
-    out += [({"depth": 2, "alpha": 1, "o0": k}, 900) for k in range(4)]
+    out += [({"depth": 2, "alpha": 1, "o0": k}, 900) for k in range(4)]     # reduced alphabet: 4 leaves + 2 unary + 2 binary
     out += [({"depth": 2, "alpha": 1, "o0": k, "o1": j}, 900) for k in range(4, 8) for j in range(8)]
     if tier == "thorough":
         # depth 2 over the full alphabet: 151k trees, sharded by the first three opcodes
-        out += [({"depth": 2, "alpha": 0, "o0": k}, 1800) for k in range(8)]
-        out += [({"depth": 2, "alpha": 0, "o0": k, "o1": j}, 3000) for k in range(8, 11) for j in range(14)]
-        out += [({"depth": 2, "alpha": 0, "o0": k, "o1": j, "o2": i}, 3000) for k in range(11, 14) for j in range(14)
-                for i in range(14)]
+        out += [({"depth": 2, "alpha": 0, "o0": k}, 1800) for k in range(10)]
+        out += [({"depth": 2, "alpha": 0, "o0": k, "o1": j}, 3000) for k in range(10, 13) for j in range(16)]
+        out += [({"depth": 2, "alpha": 0, "o0": k, "o1": j, "o2": i}, 3000) for k in range(13, 16) for j in range(16)
+                for i in range(16)]
     return out
 
 
 def _seq_shards(tier):
     out = []
-    for k in range(len(SEQ_OPS)):
+    for k in range(NESTED_FROM, len(SEQ_OPS)):
+        out += [({"op": k, "n": n}, 900) for n in range(8)]
+    for k in range(NESTED_FROM):
         for n in range(4):
             if k in (0, 1) and n >= 2:
-                out += [({"op": k, "n": n, "o0": o}, 900) for o in range(14)]
+                out += [({"op": k, "n": n, "o0": o}, 900) for o in range(16)]
             elif k == 5 and n >= 2:
                 out += [({"op": k, "n": n, "o0": o, "o1": q}, 900) for o in range(4) for q in range(4)]
             else:
@@ -523,18 +563,20 @@ def _seq_shards(tier):
 
 HARNESSES = [
     Harness("int", h_int, _int_shards,
-            bounds={"quick": "all matcher trees of depth <= 1 over 8 leaves {Equals, NotEquals, LessThan, GreaterThan (symbolic "
-                             "unbounded int parameters), Always, Never, IsInstance(int), Is(None)} and combinators {Not, Annotate, "
-                             "AfterPreprocessing(+1), MatchesAll, MatchesAll(first_only), MatchesAny} (224 trees), plus all 3964 trees of depth 2 over "
+            bounds={"quick": "all matcher trees of depth <= 1 over 10 leaves {Equals, NotEquals, LessThan, GreaterThan (symbolic "
+                             "unbounded int parameters), Always, Never, IsInstance, Is(None), MatchesAny(), MatchesAll()} and combinators {Not, Annotate, "
+                             "AfterPreprocessing(+1), MatchesAll, MatchesAll(first_only), MatchesAny} (340 trees), plus all 3964 trees of depth 2 over "
                              "the reduced alphabet {Equals, LessThan, Never, NotEquals | Not, AfterPreprocessing | MatchesAll, MatchesAny}; "
                              "matchee: one unbounded symbolic int (wrapped in an opaque ordered value)",
-                    "thorough": "additionally all 151k trees of depth 2 over the full alphabet"},
+                    "thorough": "additionally all 348k trees of depth 2 over the full alphabet"},
             rule="one (tree, branch outcome pattern) per path covering all ints on that pattern; non-trivial = tree has a combinator",
             sym=("p0", "p1", "p2", "x"), twin_fix={"depth": 1, "alpha": 0}),
     Harness("seq", h_seq, _seq_shards,
             bounds={"quick": "AllMatch/AnyMatch over depth-1 int expressions; MatchesListwise (2, +first_only), MatchesSetwise "
                              "(2 matchers over 8 leaves, 3 matchers over {Equals, NotEquals, LessThan, Always}, and the same matcher object twice), HasLength(0..3), SameMembers, Contains, "
-                             "ContainsAll over leaf matchers with symbolic parameters; matchee: list of 0..3 unbounded symbolic ints"},
+                             "ContainsAll over leaf matchers with symbolic parameters; matchee: list of 0..3 unbounded symbolic ints; nested quantifiers "
+                             "AllMatch(AnyMatch), Not(AllMatch(AnyMatch)), AnyMatch(AllMatch), Listwise[AnyMatch, AllMatch] over 8 shapes of "
+                             "lists of lists incl. empty inner lists"},
             rule="non-trivial = non-empty list", sym=("p0", "p1", "p2", "x0", "x1", "x2"), twin_fix={"op": 0, "n": 2}),
     Harness("dict", h_dict, lambda tier: [({"op": k, "ek": e}, 600) for k in range(4) for e in range(8)],
             bounds={"quick": "MatchesDict / ContainsDict / ContainedByDict / KeysEqual with every expected key set over {a,b,c} "
